@@ -396,7 +396,23 @@ pub fn run_pool_variant(ctx: &Ctx) {
                 }
                 let rec = h.record();
                 // every other run: all flows from ONE client address (they differ in the source port only)
-                let ip = Ip::V4(Ip4 { src: [10, 7, 0, if (seed >> 1) % 2 == 0 { 1 } else { i as u8 + 1 }], dst: [10, 7, 1, 1], ..Ip4::default() });
+                let host = if (seed >> 1) % 2 == 0 { 1 } else { i as u8 + 1 };
+                // every other run over IPv6 (a dispatch hash has to find the addresses in either header layout)
+                let ip = if (seed >> 2) % 2 == 0 {
+                    Ip::V4(Ip4 { src: [10, 7, 0, host], dst: [10, 7, 1, 1], ..Ip4::default() })
+                } else {
+                    let mut a = [0u8; 16];
+                    a[0] = 0x20;
+                    a[1] = 0x01;
+                    a[2] = 0x0d;
+                    a[3] = 0xb8;
+                    a[13] = 7;
+                    let mut b = a;
+                    a[15] = host;
+                    b[14] = 1;
+                    b[15] = 1;
+                    Ip::V6(Ip6 { src: a, dst: b, ..Ip6::default() })
+                };
                 let mut cp = cut_positions(cuts, rec.len());
                 cp.retain(|c| *c >= 5);
                 let frames = seg_frames(&ip, 42000 + i as u16, 443, 1000, &split(&rec, &cp));
